@@ -90,7 +90,6 @@ static enum DeviceStatusCode cam_set(struct Camera* self_, struct CameraProperti
     g_dev[c->dev].calls_after_close += g_dev[c->dev].closed;
     c->props = *p;
     if (c->props.binning == 0) c->props.binning = 1;
-    self_->state = DeviceState_Armed;
     drvlog(c->dev, "set", "%ux%u t%d trig%d -> ok", p->shape.x, p->shape.y, (int)p->pixel_type, (int)p->input_triggers.frame_start.enable);
     return Device_Ok;
 }
